@@ -37,12 +37,17 @@ type vC05Query struct {
 	Texts  []string
 	Filter int // 0 none, 1 Eq(s,x), 2 Eq(s,none), 3 group x OR y, 4 Eq(s,y)
 	K      int
-	Fusion int // 0 ws(1,1) 1 ws(.3,.7) 2 rrf60 3 max 4 min
+	Fusion int  // 0 ws(1,1) 1 ws(.3,.7) 2 rrf60 3 max 4 min
+	ByKind bool // the fusion is not handed over as an object built from a literal configuration: fusion 0 = no call at all (the default), 2 / 3 / 4 = WithFusionKind
 	Agg    ScoreAggregationKind
 }
 
 func (q vC05Query) String() string {
-	return fmt.Sprintf("vec=%v texts=%q filter=%d k=%d fusion=%d agg=%s", q.Vec, q.Texts, q.Filter, q.K, q.Fusion, q.Agg)
+	bk := ""
+	if q.ByKind {
+		bk = "(default / by kind)"
+	}
+	return fmt.Sprintf("vec=%v texts=%q filter=%d k=%d fusion=%d%s agg=%s", q.Vec, q.Texts, q.Filter, q.K, q.Fusion, bk, q.Agg)
 }
 
 type vC05Sys struct {
@@ -80,6 +85,9 @@ func newC05Sys(c *vCtx, cfg vC05Cfg, maxN int) *vC05Sys {
 						}
 						for _, a := range aggs {
 							s.qs = append(s.qs, vC05Query{Vec: v, Texts: t, Filter: f, K: k, Fusion: fu, Agg: a})
+							if fu != 1 && (k == 2 || k == 10) && a == SumAggregation {
+								s.qs = append(s.qs, vC05Query{Vec: v, Texts: t, Filter: f, K: k, Fusion: fu, Agg: a, ByKind: true})
+							}
 						}
 					}
 				}
@@ -104,6 +112,11 @@ func (s *vC05Sys) Reset() {
 		mi = NewRoaringMetadataIndex()
 	}
 	s.idx = NewHybridSearchIndex(vi, ti, mi)
+	// a caller that builds its own configuration from the defaults: the object returned by
+	// DefaultFusionConfig() is the caller's to change, default-based searches are unaffected
+	if d := DefaultFusionConfig(); d != nil {
+		d.VectorWeight, d.TextWeight, d.K = 0.25, 3, 1
+	}
 	s.live = map[uint32]int{}
 	s.tdocs = map[uint32]*vC03Doc{}
 	s.rem = map[uint32]bool{}
@@ -350,7 +363,17 @@ func (s *vC05Sys) observe(h []string) {
 	mkey := s.Key()
 	for qi, q := range s.qs {
 		s.c.Evaluations++
-		srch := s.idx.NewSearch().WithK(q.K).WithFusion(vFusionOf(q.Fusion)).WithScoreAggregation(q.Agg)
+		srch := s.idx.NewSearch().WithK(q.K).WithScoreAggregation(q.Agg)
+		switch {
+		case !q.ByKind:
+			srch = srch.WithFusion(vFusionOf(q.Fusion))
+		case q.Fusion == 2:
+			srch = srch.WithFusionKind(ReciprocalRankFusion)
+		case q.Fusion == 3:
+			srch = srch.WithFusionKind(MaxFusion)
+		case q.Fusion == 4:
+			srch = srch.WithFusionKind(MinFusion)
+		}
 		if q.Vec != nil {
 			srch = srch.WithVector(vCopyVec(q.Vec))
 		}
